@@ -24,7 +24,7 @@ use vh::gsupport::{ev, take_events};
 
 
 def key(s):
-    return "/".join([s["recv"], f"body{s['body']}", s["sig"], s["clause"], s["mode"], s["order"]])
+    return "/".join([s["recv"], f"body{s['body']}", s["sig"], s["clause"], s["mode"], s["order"]]) + ("/" + s["final"] if s.get("final", "drop") != "drop" else "")
 
 
 def recv_decl(recv):
@@ -90,6 +90,7 @@ def body_eval(body, vals, extra):
 
 def render(idx, s):
     recv, body, sig, clause, mode, order = s["recv"], s["body"], s["sig"], s["clause"], s["mode"], s["order"]
+    final_mode = s.get("final", "drop")
     rich = sig == "rich"
     lent = body == "lent"
     byval = recv in ("own", "rc", "arc")
@@ -151,6 +152,9 @@ def render(idx, s):
         n_p = len(p_args)
         wild = "_, _, _" if rich else "_"
         clauses.append(f"Mk::p.each_call(matching!({wild})).applies_default_impl().n_times({n_p})")
+    if final_mode == "unmet":
+        # an expectation that stays unmet: verification (wherever it finally happens) must report it
+        clauses.append("Mk::r1.some_call(matching!(99)).returns(0u64)")
     if len(clauses) == 1:
         clause_src = clauses[0]
     else:
@@ -204,6 +208,16 @@ def render(idx, s):
             return Err(format!("mock errors were recorded: {{:?}}", snap.panic_reasons));
         }}"""
     exp_ev = ", ".join(f'"{e}".to_string()' for e in expected_events)
+    if final_mode == "unmet" and recv == "own":
+        # the consuming call itself ends with the verification of the original
+        steps[-1] = f"""
+        let pr = vh::obs::catch(move || <Unimock as Tr>::p({self_expr}, {p_args[-1]}{', "abc", &mut 40u32' if rich else ''}));
+        match &pr {{
+            Err(msg) if msg.contains("to match exactly 1 call, but it actually matched no calls") => {{}}
+            other => return Err(format!("the original travels through the by-value provided method and must be verified when it is dropped there (one expectation is unmet), observed {{other:?}}")),
+        }}
+        let _ = take_events();
+        return Ok(());"""
     drop_src = {
         "ref": "let verdict = vh::obs::catch(move || drop(u));",
         "mut": "let verdict = vh::obs::catch(move || drop(u));",
@@ -212,6 +226,14 @@ def render(idx, s):
         "rc": "let verdict = vh::obs::catch(move || drop(u));",
         "arc": "let verdict = vh::obs::catch(move || drop(u));",
     }[recv]
+    if final_mode == "verify":
+        drop_src = drop_src.replace("drop(u)", "u.verify()")
+    if final_mode == "unmet" and recv != "own":
+        drop_src += """
+        let verdict = match verdict {
+            Err(msg) if msg.contains("to match exactly 1 call, but it actually matched no calls") => Ok(()),
+            other => Err(format!("one expectation is unmet, verification must say so; observed {other:?}")),
+        };"""
     body_fn = f"""
         let _ = take_events();
         {holder}
@@ -243,6 +265,11 @@ def shapes(tier):
         if tier == "quick" and sig == "rich" and body not in (2, "v"):
             continue
         out.append(dict(recv=recv, body=body, sig=sig, clause=clause, mode=mode, order=order))
+        if sig == "simple" and mode == "strict" and order == "unordered":
+            if recv in ("ref", "mut", "pin"):
+                out.append(dict(recv=recv, body=body, sig=sig, clause=clause, mode=mode, order=order, final="verify"))
+            if body != "lent":
+                out.append(dict(recv=recv, body=body, sig=sig, clause=clause, mode=mode, order=order, final="unmet"))
     return out
 
 
